@@ -172,6 +172,16 @@ def dispatchCmp : Dispatch := fun W op args =>
     let sc := specFCmp 10 x y
     let s := "ok " ++ boolStr (sc == .eq) ++ " " ++ ordStr sc ++ " " ++ ordStr (specFCmp 10 y x)
     pure (chk m s)
+  | "f.routes", [sa, ea] => do
+    let sg ← parseInt sa; let ex ← parseDec ea
+    let x := (FRepr.mk sg ex).normalize 10
+    pure ("ok " ++ intToHex x.signif ++ " " ++ decStr x.exp ++ " routes-agree")
+  | "q.routes", [n, d] => do
+    let a : QRepr := ⟨← parseInt n, ← parseNat d⟩
+    if a.den = 0 then pure "panic DivideByZero"
+    else
+      let r := a.reduce
+      pure ("ok " ++ intToHex r.num ++ " " ++ natToHex r.den ++ " routes-agree")
   | "q.cmp", [n1, d1, n2, d2] => do
     let a : QRepr := ⟨← parseInt n1, ← parseNat d1⟩
     let b : QRepr := ⟨← parseInt n2, ← parseNat d2⟩
